@@ -21,7 +21,8 @@ GB = np.array([[1., 0.], [2., 1.]])
 
 def make_rep(labels, cls=Representation):
     rep = cls()
-    mats = {"a": GA, "b": GB, "c": np.array([[2., 1.], [1., 1.]]), "d": np.array([[1., 1.], [1., 2.]])}
+    mats = {"a": GA, "b": GB, "c": np.array([[2., 1.], [1., 1.]]), "d": np.array([[1., 1.], [1., 2.]]),
+            "e": np.array([[3., 1.], [2., 1.]]), "f": np.array([[1., 3.], [0., 1.]]), "x": np.array([[1., 0.], [3., 1.]]), "z": np.array([[2., 3.], [1., 2.]])}
     for l in sorted({ch.lower() for lab in labels for ch in lab}):
         if cls is Representation:
             rep[l] = mats[l].copy()
@@ -212,7 +213,7 @@ def builtin_random_and_free(tier, rng, rep):
         rep.attempt("enumeration_runs", inp, body)
         rep.case(key=("builtin", name))
     # free groups
-    for gens in (["a"], ["a", "b"]):
+    for gens in (["a"], ["a", "b"], ["a", "b", "c", "d", "e"], ["e"], ["x", "e", "z"], ["f", "e"]):
         for cls in (Representation, pr.ProjectiveRepresentation):
             rp, mats = make_rep(gens, cls)
             allg = gens + [g.upper() for g in gens]
@@ -225,7 +226,7 @@ def builtin_random_and_free(tier, rng, rep):
             inp = {"free_group_generators": gens, "class": cls.__name__}
 
             def body():
-                for length in range(0, 5):
+                for length in range(0, 5 if len(gens) <= 2 else 4 if len(gens) <= 3 else 3):
                     if length == 2:
                         # history: an automaton some other caller obtained from free_automaton earlier and edited in place
                         # (FSA is mutable) is that caller's own object; later enumerations do not depend on it
